@@ -92,6 +92,13 @@ func genRace(w *bufio.Writer, r *rng, id int, goroutines, rounds int) {
 			f.Form = "struct"
 		}
 	}
+	// now and then a run-once converter fails the first time its body runs (and would succeed the second time):
+	// its error is memoised, so every call that needs it must report that error
+	for _, f := range sc.Funcs[1:] {
+		if f.Once && r.chance(1, 3) {
+			f.HasErr, f.Script = true, "fail@0"
+		}
+	}
 	if r.chance(1, 2) {
 		sc.Defaults = 0
 	}
